@@ -175,6 +175,10 @@ class _CoordsView:
             da._coords[d] = LCoord(d, CoordId("range", str(v.a)), da._ext[d])
         elif isinstance(v, range):
             da._coords[d] = LCoord(d, CoordId("range", str(v.start)), da._ext[d])
+        elif isinstance(v, _np.ndarray) and v.ndim == 1 and v.dtype.kind == "i" and len(v) and (_np.diff(v) == 1).all():
+            if not decide(da._ext[d].z == len(v)):
+                raise ValueError(f"conflicting sizes for dimension {d!r}")
+            da._coords[d] = LCoord(d, CoordId("range", str(int(v[0]))), da._ext[d])
         else:
             raise Unsupported(f"coords[{d}] = {type(v).__name__}")
 
@@ -452,6 +456,24 @@ class LDA:
                 co[d] = LCoord(d, CoordId("sorted", cid), ext[d])
         return self._new(("nanfill-unstack", self.val) if partial else self.val, dims, ext, co)
 
+    def isel(self, m=None, **kw):
+        """positional selection with an index token (an object with take_key / take_size: e.g. a recorded random draw)"""
+        m = dict(m or {}, **kw)
+        r = self
+        for d, v in m.items():
+            if d not in r._dims:
+                raise ValueError(f"Dimensions {{{d!r}}} do not exist. Expected one or more of {r._dims}")
+            if not hasattr(v, "take_key"):
+                raise Unsupported(f"isel with {type(v).__name__}")
+            e = ext_of(zl(v.take_size))
+            ext = dict(r._ext)
+            ext[d] = e
+            co = dict(r._coords)
+            if d in co:
+                co[d] = LCoord(d, CoordId("take", co[d].cid, v.take_key), e)
+            r = r._new(("take", d, v.take_key, r.val), None, ext, co)
+        return r
+
     def drop_vars(self, names, errors="raise"):
         if isinstance(names, str):
             names = [names]
@@ -602,7 +624,23 @@ class XRL:
 
     def concat(self, objs, dim=None, **kw):
         objs = list(objs)
+        if not objs:
+            raise ValueError("must supply at least one object to concatenate")
         a = objs[0]
+        if all(isinstance(o, LDA) and dim not in o._dims for o in objs):
+            # stacking along a new leading dimension (xarray aligns the other dims by label)
+            for o in objs[1:]:
+                if set(o._dims) != set(a._dims):
+                    raise Unsupported("concat of arrays with different dims along a new dim")
+                for d in a._dims:
+                    ca, cb = a._coords.get(d), o._coords.get(d)
+                    if ca is not None and cb is not None and not ca.cid.same_labels(cb.cid):
+                        ctx().events.append(("outer-join", f"concat along new {dim}: {d} labels differ ({ca.cid} vs {cb.cid})"))
+            e = ext_of(z3.IntVal(len(objs)))
+            ext = dict(a._ext)
+            ext[dim] = e
+            return LDA(("stack-new", dim) + tuple(o.val for o in objs), (dim,) + a._dims, ext, dict(a._coords),
+                       any(o.lazy for o in objs), "fresh", None, a.cplx)
         if len(objs) == 1:
             return a._new(("concat", dim, a.val))
         tot = objs[0]._ext[dim].z
@@ -624,6 +662,14 @@ class XRL:
                         # same labels in a possibly different order: only label-based alignment keeps values on their labels
                         ctx().events.append(("positional-join", f"concat along {dim} without alignment: {d} is {ca.cid} vs {cb.cid}"))
         return a._new(("concat", dim) + tuple(o.val for o in objs), None, ext, co, any(o.lazy for o in objs))
+
+    def corr(self, a, b, dim=None, **kw):
+        """xr.corr: Pearson correlation (both arguments centred along dim) over the broadcast of the other dims"""
+        if kw:
+            raise Unsupported("xr.corr options")
+        prod = a._bin(b, "*")
+        r = prod._red("mean", dim)
+        return LDA(("corr", (dim,) if isinstance(dim, str) else tuple(dim), a.val, b.val), r._dims, r._ext, r._coords, r.lazy, "fresh", None, r.cplx)
 
     def __getattr__(self, k):
         raise Unsupported("xr." + k)
@@ -650,6 +696,11 @@ class NPL:
             acc = acc + x
             out.append(acc)
         return out
+
+    def sign(self, x):
+        if isinstance(x, LDA):
+            return x._new(("sign", x.val))
+        raise Unsupported("np.sign of a non-proxy")
 
     def arange(self, a, b=None):
         if type(a) is PNum or type(b) is PNum:
